@@ -128,6 +128,35 @@ CLAIMS = {
          "100-instruction boundary is C05's.  orcbytecodes.h numbering is compared with the opcode table (prefix).",
     technique="TLA+ spec (encode/decode functions) + TLC over a bounded program grammar; replay of TLC-generated "
               "programs through liborc; TLC trace validation"),
+ "C14": dict(
+    text="OrcText.tla gives the parser as a total function Step(state, line kind) over 45 kinds of line (each "
+         "directive with too few / right tokens, before and after the first .function, instructions with x2/x4, "
+         "unknown opcode, wrong arity, unknown operand, good and bad literals, 17-token lines, block kinds reaching "
+         "every capacity); TLC checks Total, InTables, LinesNumbered exhaustively to MaxLines and by simulation to "
+         "60 kinds.  All files of 1-2 kinds, all/sampled files of 3 kinds, simulated long files and directed "
+         "capacity files are rendered with seeded formatting and line endings and parsed by the real parser (ASan "
+         "build); every returned program is compiled and freed, the error vector released.  TLC validates each Parse "
+         "event against Trace_OrcText: the parse returned, every problem line has an error record with its number, "
+         "program/variable/instruction counts are the specification's.  Arbitrary bytes are held to the weak "
+         "contract only (returns, no sanitizer report, programs compile-or-fail and free).",
+    design_ref="DESIGN.md section 6 C14",
+    note="Formatting variations exclude a blank before a comma (an empty token for this tokenizer).  The weak "
+         "contract on random bytes is an exploration inside the check, not a model-checked claim.",
+    technique="TLA+ spec of the parser as a total step function + TLC; TLC-enumerated files replayed through "
+              "orc_parse_code under ASan; TLC trace validation"),
+ "C15": dict(
+    text="Abstract programs from TLC (Gen_Bytecode: all variable classes, alignments, 32/64-bit constants, parameter "
+         "classes, 2-D / fixed-size settings, x2/x4, multi-destination opcodes) are built through the API and, "
+         "independently, printed as .orc text with seeded formatting, comments, blank lines, line endings and literal "
+         "spellings, then parsed.  TLC validates each Parse event against Trace_TextApi: one program, bytecode of the "
+         "parsed program = bytecode of the API twin, and Bytecode!Decode of those bytes = the abstract program the "
+         "text was printed from (nothing dropped, reordered or resized).",
+    design_ref="DESIGN.md section 6 C15",
+    note="Equality is at bytecode level (variable names and type names are not part of it); programs with two "
+         "declared constants of equal size and value are excluded (documented sharing); float literals are spelled "
+         "from their bit patterns as integers.",
+    technique="TLA+ specs (Bytecode + program generator) + TLC; independent printer and real parser; TLC trace "
+              "validation of text-vs-API equality"),
 }
 
 NOT_APPLICABLE = {
